@@ -112,6 +112,25 @@ def _counting_check(self, *a, **k):
 z3.Solver.check = _counting_check
 
 
+# ---- realisation detector: an unbounded symbolic turned concrete is an enumeration, never a proof
+REALIZED = []
+_orig_fmv = StateSpace.find_model_value
+
+
+def _fmv(self, expr, *a, **k):
+    r = _orig_fmv(self, expr, *a, **k)
+    if len(REALIZED) < 20:
+        f = sys._getframe(1)
+        while f is not None and ('crosshair' in f.f_code.co_filename):
+            f = f.f_back
+        if f is not None:
+            REALIZED.append(f'{f.f_code.co_filename.split("/")[-1]}:{f.f_lineno} {str(expr)[:60]}')
+    return r
+
+
+StateSpace.find_model_value = _fmv
+
+
 class Result:
     def __init__(self):
         self.status = 'unknown'
@@ -128,6 +147,7 @@ class Result:
         self.solver = {}
         self.wall_s = 0.0
         self.exhausted = False
+        self.realized = []
 
     def as_dict(self):
         d = dict(self.__dict__)
@@ -150,10 +170,17 @@ def explore(fn, timeout=120.0, per_path_timeout=30.0, max_iterations=200000,
     (runner case splits); the remaining annotated parameters become symbolic."""
     fixed = dict(fixed or {})
     sig = inspect.signature(fn)
-    sym_params = [p for n, p in sig.parameters.items() if n not in fixed]
+    sym_params = [p for n, p in sig.parameters.items()
+                  if n not in fixed and p.annotation in (int, bool, str, float)]
+    for n, p in sig.parameters.items():
+        if n not in fixed and p.annotation not in (int, bool, str, float):
+            if p.default is inspect.Parameter.empty:
+                raise TypeError(f'harness parameter {n} is neither symbolic nor fixed')
+            fixed[n] = p.default
     sym_sig = sig.replace(parameters=sym_params)
     res = Result()
     _REACHED.clear()
+    del REALIZED[:]
     del _NOTES[:]
     q0 = (STATS.queries, STATS.sat, STATS.unsat, STATS.unknown, STATS.seconds)
     t_start = time.perf_counter()
@@ -238,6 +265,7 @@ def explore(fn, timeout=120.0, per_path_timeout=30.0, max_iterations=200000,
         worst_unknown_reason = 'iteration cap'
     res.exhausted = bool(exhausted)
     res.reached = sorted(_REACHED)
+    res.realized = sorted(set(REALIZED))[:10]
     res.notes = list(_NOTES)
     res.wall_s = round(time.perf_counter() - t_start, 3)
     res.solver = dict(queries=STATS.queries - q0[0], sat=STATS.sat - q0[1],
